@@ -3,7 +3,7 @@
    language can express, all four poll methods, all fault sets, any wait limit.
    STATUS: the full statement of this property on the core model is `mon_C07 (run_scenario sc) = true`
    (see Properties_C07.v.draft); the theorems below are the monitor clauses already proved (named _partial);
-   the remaining clauses (707 711, 1103) are checked on every implementation AND model trace by the extracted monitor
+   the remaining clauses (711, 1103: no busy polling) are checked on every implementation AND model trace by the extracted monitor
    while their proofs are being completed. *)
 From Coq Require Import List ZArith Bool.
 From Ivv Require Import Core.Kernel Core.CoreTypes Core.CoreFd Core.CoreModel Core.Monitors Core.CoreSpec
@@ -21,8 +21,9 @@ Print Assumptions C07_quit_and_nesting_partial.
 (* iv_main returns only when quit was called or nothing is registered, and with nothing registered it does return
    (701/702: the end record's object count is the tracked one and is 0 unless quit); the loop never sleeps or hangs with
    nothing registered (705); the object accounting is balanced at tear-down (706); a wait entered while a timer is due
-   or a task is pending does not block (708/710) *)
+   or a task is pending does not block (708/710); a wait that reports a ready user descriptor is followed by a callback before
+   the next wait (707) *)
 Theorem C07_termination_and_progress_partial :
-  forall sc, wf_scenario sc -> no_code [701; 702; 705; 706; 708; 710] (mon_fails (run_scenario sc)).
+  forall sc, wf_scenario sc -> no_code [701; 702; 705; 706; 707; 708; 710] (mon_fails (run_scenario sc)).
 Proof. exact codes_acct. Qed.
 Print Assumptions C07_termination_and_progress_partial.
